@@ -37,9 +37,9 @@ const UNK_NAME: &str = "org.example.dht.FooPartitioner";
 pub fn generate(_rng: &mut Rng, _tier: Tier, _emit: &mut dyn FnMut(String)) {}
 
 pub fn generate_sesspart(rng: &mut Rng, tier: Tier, emit: &mut dyn FnMut(String)) {
-    let n = if tier == Tier::Quick { 24 } else { 100 };
+    let n = if tier == Tier::Quick { 30 } else { 120 };
     for i in 0..n {
-        emit(format!("sesspart schema={} seed={}", if i % 3 == 2 { 0 } else { 1 }, rng.below(1 << 32)));
+        emit(format!("sesspart schema={} seed={}", match i % 6 { 2 => 0, 5 => 2, _ => 1 }, rng.below(1 << 32)));
     }
 }
 
@@ -149,13 +149,16 @@ fn encode_key(comps: &[&[u8]]) -> Vec<u8> {
 pub fn run(words: &[&str], ctx: &mut Ctx) -> String {
     let Some(p) = Params::parse(words) else { return "bad-case".into() };
     let (Some(schema), Some(seed)) = (p.num_or("schema", 1), p.num_or("seed", 1)) else { return "bad-case".into() };
-    if schema > 1 {
+    if schema > 2 {
         return "bad-case".into();
     }
     let mut rng = Rng::new(seed ^ 0x0c03_0c03);
     register("ks.t_scylla_cdc_log", CDC_NAME);
     register("ks.m3", M3_NAME);
     register("ks.unk", UNK_NAME);
+    // a second keyspace with the SAME table names and the partitioners the other way round (a keyspace-blind join of
+    // scylla_tables with the tables would swap them): ks2.t is a CDC table, ks2.t_scylla_cdc_log is not
+    register("ks2.t", CDC_NAME);
     let shape = Shape { nodes: 1, dcs: 1, racks: 1, shards: 0, msb: 12, vnodes: 4, strat: Strat::Simple(1), seed };
     let mut topo = shape.topology();
     topo.keyspaces[0].tables.push(table("t_scylla_cdc_log", "cdc$stream_id"));
@@ -166,6 +169,12 @@ pub fn run(words: &[&str], ctx: &mut Ctx) -> String {
         partition_key: vec![("a".into(), "blob".into()), ("b".into(), "blob".into())],
         clustering: vec![],
         regular: vec![("v".into(), "int".into())],
+    });
+    topo.keyspaces.push(KeyspaceSpec {
+        name: "ks2".into(),
+        replication: simple_strategy(1),
+        tables: vec![table("t", "pk"), table("t_scylla_cdc_log", "cdc$stream_id")],
+        initial_tablets: None,
     });
     let rt = runtime(2);
     rt.block_on(async {
@@ -185,13 +194,17 @@ pub fn run(words: &[&str], ctx: &mut Ctx) -> String {
             _ => vec![act_void()],
         });
         let cluster = MockCluster::start(topo, handler).await;
-        let session = match connect_with(&cluster, false, |b| b.fetch_schema_metadata(schema == 1)).await {
+        // schema=0: no schema; 1: full schema; 2: SchemaMetadataFetchLevel::Minimal (names + partitioners only)
+        let session = match connect_with(&cluster, false, |b| b.fetch_schema_metadata(schema >= 1).fetch_full_schema_metadata(schema == 1)).await {
             Ok(s) => s,
             Err(line) => return line,
         };
+        // statements are also prepared through a CachingSession wrapped around the same session
+        let caching: scylla::client::caching_session::CachingSession = scylla::client::caching_session::CachingSession::from(session, 64);
+        let session = caching.get_session();
         let cs = session.get_cluster_state();
-        // precondition of the judged part: the snapshot really contains the tables (schema=1)
-        if schema == 1 {
+        // precondition of the judged part: the snapshot really contains the tables (schema>=1)
+        if schema >= 1 {
             let known = cs.get_keyspace("ks").map(|k| k.tables.contains_key("t_scylla_cdc_log")).unwrap_or(false);
             if !known {
                 return "e2e-skip schema-not-fetched".to_owned();
@@ -199,7 +212,7 @@ pub fn run(words: &[&str], ctx: &mut Ctx) -> String {
         }
         // the snapshot as the session holds it
         let mut snap: Vec<String> = Vec::new();
-        for ksn in ["ks", "nks"] {
+        for ksn in ["ks", "ks2", "nks"] {
             if let Some(k) = cs.get_keyspace(ksn) {
                 let mut names: Vec<&String> = k.tables.keys().collect();
                 names.sort();
@@ -224,6 +237,8 @@ pub fn run(words: &[&str], ctx: &mut Ctx) -> String {
             ("unk", "ks", "unk"),
             ("absent", "ks", "absent_scylla_cdc_log"),
             ("nks", "nks", "x_scylla_cdc_log"),
+            ("k2t", "ks2", "t"),
+            ("k2log", "ks2", "t_scylla_cdc_log"),
         ];
         for (label, ks, t) in targets {
             let text = format!("SELECT v FROM {ks}.{t} WHERE pk = ?");
@@ -242,13 +257,13 @@ pub fn run(words: &[&str], ctx: &mut Ctx) -> String {
             }
             let tokr = ps.calculate_token(&(id.clone(),));
             let tok = tokr.as_ref().ok().and_then(|t| t.map(|t| t.value()));
-            let expect_cdc = schema == 1 && label == "cdclog";
-            if schema == 1 && is_cdc != expect_cdc {
+            let expect_cdc = schema >= 1 && matches!(label, "cdclog" | "k2t");
+            if schema >= 1 && is_cdc != expect_cdc {
                 ctx.fail(format!(
                     "statement on {ks}.{t}: partitioner is {}, expected {} (scylla_tables partitioner: {})",
                     if is_cdc { "CDC" } else { "Murmur3" },
                     if expect_cdc { "CDC" } else { "Murmur3" },
-                    match label { "cdclog" => CDC_NAME, "m3" => M3_NAME, "unk" => UNK_NAME, "t" => "null", _ => "table not in the snapshot" }
+                    match label { "cdclog" | "k2t" => CDC_NAME, "m3" => M3_NAME, "unk" => UNK_NAME, "t" | "k2log" => "null", _ => "table not in the snapshot" }
                 ));
             }
             if schema == 0 && is_cdc {
@@ -270,10 +285,59 @@ pub fn run(words: &[&str], ctx: &mut Ctx) -> String {
                 if is_cdc { "cdc" } else { "murmur3" },
                 show_tok(&tokr)
             ));
+            // the same statement through the CachingSession: prepared + cached, then handed out from the cache
+            // (make_unconfigured_handle / make_configured_handle must carry the partitioner)
+            for round in 0..2 {
+                match caching.add_prepared_statement(&scylla::statement::Statement::new(text.as_str())).await {
+                    Ok(cps) => {
+                        let c_cdc = matches!(cps.get_partitioner_name(), PartitionerName::CDC);
+                        if c_cdc != is_cdc {
+                            ctx.fail(format!(
+                                "{ks}.{t}: CachingSession hands out partitioner {} (call {}), Session::prepare gave {}",
+                                if c_cdc { "CDC" } else { "Murmur3" },
+                                round + 1,
+                                if is_cdc { "CDC" } else { "Murmur3" }
+                            ));
+                        }
+                        let ctok = cps.calculate_token(&(id.clone(),));
+                        if ctok.as_ref().ok().and_then(|t| t.map(|t| t.value())) != tok {
+                            ctx.fail(format!("{ks}.{t}: CachingSession statement's token {} differs from {:?}", show_tok(&ctok), tok));
+                        }
+                        out.push_str(&format!(
+                            " ; cprep {ks} {t} 0 {} {} {}",
+                            crate::util::hex(&id),
+                            if c_cdc { "cdc" } else { "murmur3" },
+                            show_tok(&ctok)
+                        ));
+                    }
+                    Err(_) => ctx.fail(format!("CachingSession::add_prepared_statement of `{text}` failed")),
+                }
+            }
             // ClusterState::compute_token (the path that bypasses PreparedStatement): same token for a table in the
             // snapshot, UnknownTable otherwise
             let ct = cs.compute_token(ks, t, &(id.clone(),));
+            // compute_token_preserialized: no count / type check, so it also works at the Minimal fetch level
+            {
+                let mut sv = scylla_cql_core::serialize::row::SerializedValues::new();
+                sv.add_value(&id, &scylla_cql::frame::response::result::ColumnType::Native(scylla_cql::frame::response::result::NativeType::Blob)).unwrap();
+                let pr = scylla::verif_hooks::prepared::compute_token_preserialized(&cs, ks, t, &sv);
+                let known = schema >= 1 && !matches!(label, "absent" | "nks");
+                match (&pr, known) {
+                    (Ok(p), true) if Some(p.value()) == tok => {}
+                    (Err(scylla::errors::ClusterStateTokenError::UnknownTable { .. }), false) => {}
+                    (other, _) => ctx.fail(format!(
+                        "{ks}.{t}: compute_token_preserialized gave {}, the prepared statement's token is {:?} (table in the snapshot: {})",
+                        show_ctok(other), tok, known
+                    )),
+                }
+                out.push_str(&format!(" ; ptokp {ks} {t} {} {}", crate::util::hex(&id), show_ctok(&pr)));
+            }
             let in_snapshot = schema == 1 && !matches!(label, "absent" | "nks");
+            if schema == 2 {
+                // Minimal level: tables are known by name and partitioner only; compute_token cannot serialize a key
+                out.push_str(&format!(" ; ctok {ks} {t} 1 {} {}", crate::util::hex(&id), show_ctok(&ct)));
+                continue;
+            }
             match (&ct, in_snapshot) {
                 (Ok(c), true) => {
                     if Some(c.value()) != tok {
@@ -340,6 +404,23 @@ pub fn run(words: &[&str], ctx: &mut Ctx) -> String {
             let kav = if matches!(ka, V::B(x) if x.len() > 1000) { "z65536x80".to_owned() } else { ka.show() };
             out.push_str(&format!(" ; prep ks comp 1,0 {},{} {} {}", kb.show(), kav, part, show_tok(&tokr)));
             out.push_str(&format!(" ; ctok ks comp 1 {},{} {}", kav, kb.show(), show_ctok(&ctr)));
+        }
+        // compute_token_preserialized checks no count: one and three values for the two-column key are hashed as given
+        for key in [vec![a.clone()], vec![a.clone(), b.clone(), a.clone()]] {
+            let blob = scylla_cql::frame::response::result::ColumnType::Native(scylla_cql::frame::response::result::NativeType::Blob);
+            let mut sv = scylla_cql_core::serialize::row::SerializedValues::new();
+            for k in &key {
+                sv.add_value(k, &blob).unwrap();
+            }
+            let pr = scylla::verif_hooks::prepared::compute_token_preserialized(&cs, "ks", "comp", &sv);
+            if schema >= 1 {
+                let comps: Vec<&[u8]> = key.iter().map(|k| k.as_slice()).collect();
+                let expected = reference_murmur3(&encode_key(&comps));
+                if pr.as_ref().ok().map(|t| t.value()) != Some(expected) {
+                    ctx.fail(format!("ks.comp: compute_token_preserialized of {} values gave {}, expected {}", key.len(), show_ctok(&pr), expected));
+                }
+            }
+            out.push_str(&format!(" ; ptokp ks comp {} {}", key.iter().map(|k| crate::util::hex(k)).collect::<Vec<_>>().join(","), show_ctok(&pr)));
         }
         // serialization arms of compute_token: a missing column, a value of the wrong Rust type, more than 65535 values
         let short = cs.compute_token("ks", "comp", &(a.clone(),));
